@@ -186,4 +186,91 @@ ValueEditLabels(tag, DD, D2, isSet, n, pre, dl, fx, recalc, taint) ==
 RejectedLabels(tag, defsBefore, defsAfter, pre, dl) ==
     Lbl(defsAfter = defsBefore, "C11.RejectedUnchanged")
     \cup Lbl(DOMAIN dl = DOMAIN pre /\ \A x \in DOMAIN pre : dl[x] = pre[x], "C11.RejectedKeepsValues")
+-----------------------------------------------------------------------------
+(* The definitions as the library reports them (public API projection pd)  *)
+(* against the definitions D2 obtained from the edits alone:               *)
+(* C03 derived members = derivation from scratch along C3; C10 bindings;   *)
+(* C11 well-formedness; C12 names.                                         *)
+
+Visible(D2, s) ==
+    ENames(D2, s, "cells") \cup ENames(D2, s, "refs") \cup {"_self", "_space", "_model"}
+    \cup DOMAIN D2.grefs \cup {"__builtins__"} \cup ChildNames(D2, s)
+
+\* C10, exactly the cases the property states: a derived reference in relative
+\* or auto mode whose value is the defining space or one of its cells is bound
+\* to the deriving space / its corresponding cells; absolute stays
+C10Expected(D2, s, n) ==
+    LET b == Definer(D2, s, "refs", n)
+        r == D2.refs[b][n]
+        v == r.v IN
+    IF b = s \/ v[1] = "int" THEN <<TRUE, v>>
+    ELSE IF r.mode = "absolute" THEN <<TRUE, v>>
+    ELSE IF v[2] = b /\ v[3] = <<>>
+         THEN <<TRUE, IF v[1] = "ce" THEN CeObj(s, <<>>, v[4]) ELSE SpObj(s, <<>>)>>
+    ELSE <<FALSE, v>>                 \* not fixed by the property
+
+DefsLabels(tag, D2, pd) ==
+    LET psp    == Range(pd.sp)
+        pcells == PairsToFun(pd.cells)
+        prefs  == PairsToFun(pd.refs)
+        pbases == PairsToFun(pd.bases)
+        pdb    == PairsToFun(pd.dbases)
+        pdir   == PairsToFun(pd.dir)
+        both   == psp \cap D2.sp
+        PD     == [D2 EXCEPT !.sp = psp, !.bases = pdb]
+    IN
+      Lbl(psp = D2.sp \/ ~PrintT(<<"INFO", tag, "spaces", psp, "expected", D2.sp>>), "C03.SpaceTree")
+      \cup Lbl(\A s \in both : DOMAIN pcells[s] = ENames(D2, s, "cells")
+                  \/ ~PrintT(<<"INFO", tag, "cells of", s, DOMAIN pcells[s], "expected", ENames(D2, s, "cells")>>),
+               "C03.DerivedCellsNames")
+      \cup Lbl(\A s \in both : \A c \in DOMAIN pcells[s] \cap ENames(D2, s, "cells") :
+                  LET m == EMember(D2, s, "cells", c)  q == pcells[s][c] IN
+                  (q.f = m.f /\ q.cached = m.cached /\ q.derived = IsDerived(D2, s, "cells", c))
+                  \/ ~PrintT(<<"INFO", tag, "cells", s, c, q, "expected", m, IsDerived(D2, s, "cells", c)>>),
+               "C03.DerivedCellsDefs")
+      \cup Lbl(\A s \in both : DOMAIN prefs[s] = ENames(D2, s, "refs")
+                  \/ ~PrintT(<<"INFO", tag, "refs of", s, DOMAIN prefs[s], "expected", ENames(D2, s, "refs")>>),
+               "C03.DerivedRefsNames")
+      \cup Lbl(\A s \in both : \A n \in DOMAIN prefs[s] \cap ENames(D2, s, "refs") :
+                  LET m == EMember(D2, s, "refs", n)  q == prefs[s][n] IN
+                  (q.mode = m.mode /\ q.derived = IsDerived(D2, s, "refs", n)
+                   /\ (m.v[1] = "int" => q.v = m.v))
+                  \/ ~PrintT(<<"INFO", tag, "ref", s, n, q, "expected", m>>),
+               "C03.DerivedRefsDefs")
+      \cup Lbl(\A s \in both : \A n \in DOMAIN prefs[s] \cap ENames(D2, s, "refs") :
+                  LET x == C10Expected(D2, s, n) IN
+                  (x[1] => prefs[s][n].v = x[2])
+                  \/ ~PrintT(<<"INFO", tag, "binding", s, n, prefs[s][n].v, "expected", x[2]>>),
+               "C10.ModeBinding")
+      \cup Lbl(\A s \in both : \A n \in DOMAIN prefs[s] \cap ENames(D2, s, "refs") :
+                  prefs[s][n].v = ERefVal(D2, s, n)
+                  \/ ~PrintT(<<"INFO", tag, "refvalue", s, n, prefs[s][n].v, "model", ERefVal(D2, s, n)>>),
+               "DRIFT.RefValue")
+      \cup Lbl(\A s \in both : (C3(D2, s) # Fail) =>
+                  (pbases[s] = Tail(C3(D2, s))
+                   \/ ~PrintT(<<"INFO", tag, "bases", s, pbases[s], "expected", Tail(C3(D2, s))>>)),
+               "C03.BasesIsC3")
+      \cup Lbl(\A s \in both : pdb[s] = D2.bases[s], "C03.DirectBases")
+      \cup Lbl(pd.grefs = [n \in DOMAIN D2.grefs |-> [v |-> D2.grefs[n].v]], "C12.ModelRefs")
+      \cup Lbl(\A s \in both : Range(pdir[s]) = Visible(D2, s)
+                  \/ ~PrintT(<<"INFO", tag, "dir", s, Range(pdir[s]), "expected", Visible(D2, s)>>),
+               "C12.VisibleEqContainers")
+      \cup Lbl(\A s \in psp :
+                  LET cn == DOMAIN pcells[s]  rn == DOMAIN prefs[s]
+                      sn == {Last(t) : t \in {u \in psp : Len(u) = Len(s) + 1 /\ SubSeq(u, 1, Len(s)) = s}} IN
+                  cn \cap rn = {} /\ cn \cap sn = {} /\ rn \cap sn = {},
+               "C12.NamesUnique")
+      \cup Lbl({<<Last(t)>> : t \in {u \in psp : Len(u) = 1}} \cap {<<n>> : n \in DOMAIN pd.grefs} = {},
+               "C12.ModelNamesUnique")
+      \cup Lbl(WellFormed(PD), "C11.WellFormed")
+      \cup Lbl(Len(pd.badnames) = 0, "C11.ValidNames")
+
+\* handles (C13): rows <<id, kind, state, path, steps, name>>; a handle is dead,
+\* or it is the current object at the place it reports and that place exists
+HandleLabels(tag, D2, rows) ==
+    Lbl(\A h \in rows : h[3] \in {"dead", "current"}
+            \/ ~PrintT(<<"INFO", tag, "handle", h>>), "C13.DeletedHandlesDead")
+    \cup Lbl(\A h \in rows : h[3] = "current" =>
+                 IF h[2] = "space" THEN CtxExists(D2, <<h[4], h[5]>>)
+                 ELSE NodeExists(D2, <<h[4], h[5], h[6], <<>>>>), "C13.LiveHandlesDenote")
 =============================================================================
